@@ -79,6 +79,11 @@ def make_pool(r, kind, n):
         v = gen_of(r, kind)
         if gv.finite(v):
             pool.append(v)
+            if kind == "date" and r.random() < 0.6:
+                # same day, other time of day (order must be chronological to the second)
+                y, mo, d, h, mi, sec = v[1]
+                pool.append(("date", (y, mo, d, r.randint(0, 23), r.randint(0, 59), r.randint(0, 59))))
+                pool.append(("date", (y, mo, d, h, mi, (sec + 1) % 60)))
             if kind == "list" and v[1] and r.random() < 0.4:
                 pool.append(("list", v[1][:-1]))            # proper prefix
             if kind == "str" and v[1] and r.random() < 0.4:
@@ -184,6 +189,9 @@ def run_programs(spec, ctx):
         kind = r.choice(kinds)
         a = gen_of(r, kind)
         b = gen_of(r, kind) if r.random() < 0.7 else a
+        if kind == "date" and r.random() < 0.5:
+            y, mo, d, h, mi, sec = a[1]
+            b = ("date", (y, mo, d, r.randint(0, 23), r.randint(0, 59), r.randint(0, 59)))
         if kind == "str" and r.random() < 0.3 and a[1]:
             b = ("str", a[1][:-1])
         if not (gv.finite(a) and gv.finite(b)) or not rv.same_order_kind(a, b):
